@@ -297,10 +297,47 @@ func uniq(s []string) []string {
 	return out
 }
 
+// pureAccessor: a single-block module function without calls (except len/cap) or stores whose only
+// result is an expression over its parameters — e.g. func (l *Lexer) currWord() string
+// { return l.input[l.start:l.pos] }. Calls of such functions are keyed by the expression itself.
+func (c *Ctx) pureAccessor(f *ssa.Function) ssa.Value {
+	if f == nil || !inModule(f) || len(f.Blocks) != 1 || f.Signature.Results().Len() != 1 {
+		return nil
+	}
+	var ret *ssa.Return
+	for _, in := range f.Blocks[0].Instrs {
+		switch x := in.(type) {
+		case *ssa.FieldAddr, *ssa.Field, *ssa.IndexAddr, *ssa.Index, *ssa.Slice, *ssa.UnOp, *ssa.DebugRef:
+		case *ssa.Call:
+			if b, ok := x.Call.Value.(*ssa.Builtin); !ok || (b.Name() != "len" && b.Name() != "cap") {
+				return nil
+			}
+		case *ssa.Return:
+			ret = x
+		default:
+			return nil
+		}
+	}
+	if ret == nil || len(ret.Results) != 1 {
+		return nil
+	}
+	// only slicing / field selection results (strings, slices): predicates and arithmetic stay calls
+	switch ret.Results[0].(type) {
+	case *ssa.Slice, *ssa.UnOp, *ssa.Field:
+		return ret.Results[0]
+	}
+	return nil
+}
+
 func (c *Ctx) callKey(cc *ssa.CallCommon, k func(ssa.Value) string) string {
 	var args []string
 	for _, a := range cc.Args {
 		args = append(args, k(a))
+	}
+	if f := cc.StaticCallee(); f != nil {
+		if rv := c.pureAccessor(f); rv != nil {
+			return substParams(c.key(rv, nil), args)
+		}
 	}
 	if b, ok := cc.Value.(*ssa.Builtin); ok {
 		return b.Name() + "(" + strings.Join(args, ",") + ")"
